@@ -35,11 +35,24 @@ def decl_nodes(d, out=None):
 
 _BASE = {}
 
+# user code supplied for the Fortran wrapper in every run: code in front of the module and the body of a function that is
+# generated after a struct (both disappear silently if a splicer scope is mishandled under one of the options)
+USER_SPLICERS = {
+    "geom": {"f": {"file_top": ["#define GEOM_USER_CODE 7"]}},
+    "clib": {"f": {"file_top": ["#define CLIB_USER_CODE 7"], "function": {"norm": ["SHT_rv = 42"]}}},
+    "nest": {"f": {"file_top": ["#define NEST_USER_CODE 7"]}},
+}
+
+
+def user_splicers(libname):
+    import copy
+    return copy.deepcopy(USER_SPLICERS.get(libname))
+
 
 def baseline(libname, write_version):
     key = (libname, write_version)
     if key not in _BASE:
-        r = pipeline.run(pipeline.load_yaml(cc.LIBS[libname]), write_version=write_version)
+        r = pipeline.run(pipeline.load_yaml(cc.LIBS[libname]), write_version=write_version, splicers=user_splicers(libname))
         texts = cc.file_texts(r)
         _BASE[key] = {f: cc.strip_comments(f, t) for f, t in texts.items() if cc.language_of(f) != "json"}
     return _BASE[key]
@@ -67,7 +80,7 @@ class Harness(object):
                 v = z3.Bool("decl_" + o)
                 self.vars["decl." + o] = v
                 opts[o] = SymBool(e, v)
-        r = pipeline.run(d, write_version=self.write_version, deep=False)
+        r = pipeline.run(d, write_version=self.write_version, deep=False, splicers=user_splicers(self.libname))
         return r
 
     def witness(self, m, what):
@@ -119,7 +132,7 @@ def confirm(w):
         else:
             decl_nodes(d)[w["decl_index"]].setdefault("options", {})[o] = v
     try:
-        r = pipeline.run(d, write_version=w.get("write_version", False))
+        r = pipeline.run(d, write_version=w.get("write_version", False), splicers=user_splicers(w["library"]))
     except Exception as ex:
         return "exception %s: %s" % (type(ex).__name__, ex)
     return compare(w["library"], w.get("write_version", False), r)
